@@ -4,6 +4,7 @@ import (
 	"encoding/json"
 	"fmt"
 	"reflect"
+	"strings"
 
 	icl "github.com/moov-io/imagecashletter"
 )
@@ -221,7 +222,21 @@ func runC17(cfg *config) *Report {
 		}
 		rep.Evaluations++
 		rep.count("build-twice")
-		if i%2 == 1 {
+		noncanon := ""
+		if i%6 == 5 {
+			// caller-supplied check sequence numbers that the 15-column field cannot hold as such
+			noncanon = []string{"-5", "1234567890123456", "12345678901234567890123", "-123456789012345678"}[(i/6)%4]
+			for ci := range f.CashLetters {
+				for _, b := range f.CashLetters[ci].Bundles {
+					for j, cd := range b.Checks {
+						if j == 0 {
+							cd.EceInstitutionItemSequenceNumber = noncanon
+						}
+					}
+				}
+			}
+			rep.count("build-twice:noncanonical-check-sequence-number")
+		} else if i%2 == 1 {
 			// caller-supplied item sequence numbers, unpadded, of different widths
 			for ci := range f.CashLetters {
 				for _, b := range f.CashLetters[ci].Bundles {
@@ -243,7 +258,12 @@ func runC17(cfg *config) *Report {
 			continue
 		}
 		twice := snapshot(f, false)
-		if once != twice {
+		if once != twice && noncanon != "" && strings.HasSuffix(diffField(once, twice), "ItemSequenceNumber") {
+			// recorded finding: the number is cut / zero-filled into the item's field, the addenda (and the
+			// next build) get what is left of it
+			rep.violate(Violation{Key: "C17:build-not-idempotent:noncanonical-check-sequence-number", What: "building twice gives a different file than building once for a caller-supplied check sequence number outside 0..10^15-1 (" + noncanon + "): " + firstSnapDiff(once, twice),
+				Replay: map[string]any{"tree": dumpFile(f), "supplied": noncanon}})
+		} else if once != twice {
 			rep.violate(Violation{Key: "C17:build-not-idempotent:" + diffField(once, twice), What: "building twice gives a different file than building once: " + firstSnapDiff(once, twice),
 				Replay: map[string]any{"tree": dumpFile(f)}})
 		}
